@@ -319,6 +319,69 @@ where
                 let d = log.delta();
                 out.push(if lost == 0 { format!("cw:ok{}", d) } else { format!("cw:lost{:x}{}", lost, d) });
             }
+            "cwl" => {
+                // concurrent writers while the front-end re-sends SET_LOG_BASE with the window already in force: every single
+                // write must leave its bit in the log (each writer owns one page: it writes, checks its bit, clears it)
+                let (nt, rounds, gpa) = (parse_hex_u64(f[1]) as usize, parse_hex_u64(f[2]) as usize, parse_hex_u64(f[3]));
+                let (size, off) = (parse_hex_u64(f[4]), parse_hex_u64(f[5]));
+                let nt = nt.min(8);
+                let ok0 = matches!(b.peer.call(codes::SET_LOG_BASE, &peer::b_log(size, off), &[log.fd.as_raw_fd()]),
+                                   Ok((h, ref body, _)) if h.request == codes::SET_LOG_BASE && body.len() == 16);
+                if !ok0 {
+                    dead = b.reconnect().is_none() || !rehandshake(&mut b.peer);
+                    out.push("cwl:lbfail".into());
+                    continue;
+                }
+                // the harness' own shared mapping of the log file
+                let map = unsafe { libc::mmap(std::ptr::null_mut(), log.size, libc::PROT_READ | libc::PROT_WRITE, libc::MAP_SHARED, log.fd.as_raw_fd(), 0) };
+                assert!(map != libc::MAP_FAILED, "mmap of the log file");
+                let base = map as usize;
+                let stop = Arc::new(std::sync::atomic::AtomicBool::new(false));
+                let lost = Arc::new(std::sync::atomic::AtomicUsize::new(0));
+                let writes = Arc::new(std::sync::atomic::AtomicUsize::new(0));
+                let mut hs = Vec::new();
+                for i in 0..nt {
+                    let gm = b.mem.clone();
+                    let (stop, lost, writes) = (stop.clone(), lost.clone(), writes.clone());
+                    let page = gpa / 4096 + i as u64;
+                    let byte = off as usize + (page / 8) as usize;
+                    let bit = 1u8 << (page % 8);
+                    hs.push(std::thread::spawn(move || {
+                        // SAFETY: `byte` lies inside the mapping (the window is inside the file); AtomicU8 has no alignment need
+                        let cell = unsafe { &*((base + byte) as *const std::sync::atomic::AtomicU8) };
+                        cell.fetch_and(!bit, std::sync::atomic::Ordering::SeqCst);
+                        while !stop.load(std::sync::atomic::Ordering::SeqCst) {
+                            let r = gm.memory().write_obj(0xeeu8, GuestAddress(page * 4096 + i as u64));
+                            writes.fetch_add(1, std::sync::atomic::Ordering::Relaxed);
+                            if r.is_err() || cell.load(std::sync::atomic::Ordering::SeqCst) & bit == 0 {
+                                lost.fetch_add(1, std::sync::atomic::Ordering::SeqCst);
+                            }
+                            cell.fetch_and(!bit, std::sync::atomic::Ordering::SeqCst);
+                        }
+                        // leave the page marked (the final state is part of the observation)
+                        let _ = gm.memory().write_obj(0xeeu8, GuestAddress(page * 4096 + i as u64));
+                    }));
+                }
+                let mut lbfail = false;
+                for _ in 0..rounds {
+                    let r = b.peer.call(codes::SET_LOG_BASE, &peer::b_log(size, off), &[log.fd.as_raw_fd()]);
+                    if !matches!(r, Ok((h, ref body, _)) if h.request == codes::SET_LOG_BASE && body.len() == 16) {
+                        lbfail = true;
+                        break;
+                    }
+                }
+                stop.store(true, std::sync::atomic::Ordering::SeqCst);
+                for h in hs {
+                    let _ = h.join();
+                }
+                unsafe { libc::munmap(map, log.size) };
+                let d = log.delta();
+                let l = lost.load(std::sync::atomic::Ordering::SeqCst);
+                out.push(if lbfail { "cwl:lbfail".into() } else if l == 0 { format!("cwl:ok{}", d) } else { format!("cwl:lost{:x}{}", l, d) });
+                if lbfail {
+                    dead = b.reconnect().is_none() || !rehandshake(&mut b.peer);
+                }
+            }
             _ => out.push(format!("bad-op:{}", kind)),
         }
     }
